@@ -1,3 +1,5 @@
 import TxV.Util.AuditCmd
 import TxV.Props.C11
+import TxV.Props.C11b
 #txv_audit TxV.Props.C11
+#txv_audit TxV.Props.C11b
